@@ -811,6 +811,11 @@ class BzrFastExporter:
         old_to_new = {}
         deleted_paths = {change.path[0] for change in deletes}
         all_deleted_paths = frozenset(deleted_paths)
+        # A destination that another rename of this commit still has to
+        # leave (a swap, a chain of renames) is reached through a temporary
+        # name, once all renames have left their old paths.
+        vacated_later = {change.path[0] for change in renames}
+        staged = []
         for change in renames:
             emit = change.kind[1] != "directory" or not self.plain_format
             if change.path[1] in deleted_paths:
@@ -826,10 +831,15 @@ class BzrFastExporter:
             #    revision_id)
             renamed.append(change.path)
             old_to_new[change.path[0]] = change.path[1]
+            vacated_later.discard(change.path[0])
             if emit:
+                new_path = change.path[1]
+                if new_path in vacated_later:
+                    new_path = ".fast-export-tmp-%d" % len(staged)
+                    staged.append((new_path, change.path[1]))
                 file_cmds.append(
                     commands.FileRenameCommand(
-                        change.path[0].encode("utf-8"), change.path[1].encode("utf-8")
+                        change.path[0].encode("utf-8"), new_path.encode("utf-8")
                     )
                 )
             if change.changed_content or change.meta_modified():
@@ -850,6 +860,13 @@ class BzrFastExporter:
                     must_be_renamed[p] = osutils.pathjoin(
                         change.path[1], p[len(prefix) :]
                     )
+
+        for tmp_path, new_path in staged:
+            file_cmds.append(
+                commands.FileRenameCommand(
+                    tmp_path.encode("utf-8"), new_path.encode("utf-8")
+                )
+            )
 
         # Add children not already renamed
         if must_be_renamed:
